@@ -152,23 +152,30 @@ func (r *recRegistry) RegisterGauge(ID string, supplier core.MetricSupplier, tag
 // it has left the backlog when Acquire returns by time-out or (if enabled) cancellation; the
 // queue_size gauge reports the backlog length.
 //
-//verif:harness property=C12 theory=bv tier=quick blocked=violation replay=engine
+//verif:harness property=C12 theory=bv tier=quick blocked=violation replay=engine unwind=120
 func VerifC12_BacklogBound() {
 	d := &recLimiter{alwaysNo: true}
 	reg := &recRegistry{}
+	// every configured size: a non-positive one means the documented default of 100
 	maxB := verif.Int("maxBacklogSize")
-	verif.Assume(maxB >= 1 && maxB < 1<<31)
+	verif.Assume(maxB > -(1<<31) && maxB < 1<<31)
+	effB := maxB
+	if maxB <= 0 {
+		effB = 100
+	}
 	evict := verif.Bool("evictDoneCtx")
 	to := verif.Int64("timeout")
 	verif.Assume(to >= 1 && to < 1<<60)
 	q := NewQueueBlockingLimiterFromConfig(d, QueueLimiterConfig{Ordering: OrderingFIFO, MaxBacklogSize: maxB, MaxBacklogTimeout: time.Duration(to), BacklogEvictDoneCtx: evict, MetricRegistry: reg})
-	n := verif.Choice("prefilled", verif.Tiered(4, 7))
+	// callers already blocked: 0..3 (0..6 thorough), or 99 / 100 / 101 (around the default bound)
+	sizes := []int{0, 1, 2, 3, 99, 100, 101, 4, 5, 6}
+	n := sizes[verif.Choice("prefilled", verif.Tiered(7, 10))]
 	// the callers already blocked: when cancellation does not evict (the default) their contexts may
 	// have been cancelled at any instant (or never) - they are still blocked and still count
 	wnames := []string{"w0", "w1", "w2", "w3", "w4", "w5", "w6"}
 	for i := 0; i < n; i++ {
 		pctx := context.Background()
-		if !evict {
+		if !evict && i < len(wnames) {
 			pctx = verif.CancelCtx(wnames[i])
 		}
 		q.backlog.push(pctx)
@@ -176,12 +183,12 @@ func VerifC12_BacklogBound() {
 	size, ok := reg.gauges[core.MetricQueueSize]()
 	verif.Assert("gauge-reports-backlog", ok && size == float64(n))
 	lim, ok2 := reg.gauges[core.MetricQueueLimit]()
-	verif.Assert("gauge-reports-limit", ok2 && lim == float64(maxB))
+	verif.Assert("gauge-reports-limit", ok2 && lim == float64(effB))
 	ctx := verif.CancelCtx("ctx")
 	lst, got := q.Acquire(ctx)
 	verif.Assert("refused-without-capacity", !got && lst == nil)
 	verif.Assert("backlog-exact-after-return", int(q.backlog.len()) == n)
-	if n >= maxB {
+	if n >= effB {
 		verif.Assert("full-backlog-refused-at-once", verif.ClockReadings() == 0 && verif.Now() == 0 && d.calls == 1)
 		verif.Reach("full")
 	} else {
